@@ -56,6 +56,14 @@ def make_case(tier, seed, index):
                 v["sigma"] = 0.0 if rng.random() < 0.5 else None
             elif is_par and rng.random() < 0.7:
                 v["sigma"] = float(rng.choice([0.05, 0.2]))
+    # uncertain initial sizes: some draws cannot be initialised and are redrawn (the retry must be a *new* draw, serial or parallel)
+    init_sigma = bool(not zero and rng.random() < 0.3)
+    if init_sigma:
+        for c in spec["comps"]:
+            if c["kind"] == "ord" and c["name"] in spec["values"]:
+                for pop, v in spec["values"][c["name"]].items():
+                    base = v.get("a") if "a" in v else (v["v"][0] if v.get("v") else 0.0)
+                    v["sigma"] = 0.45 * abs(float(base or 0.0)) + 0.2
     # transfers and interactions are sampled too
     for t in spec.get("transfers", []):
         for e in t["entries"]:
@@ -85,6 +93,7 @@ def make_case(tier, seed, index):
         "n_samples": int(rng.integers(2, 33)) if tier == "thorough" or rng.random() < 0.3 else int(rng.integers(2, 13)),
         "preseed": None if rng.random() < 0.4 else int(rng.integers(0, 10000)),
         "delays": str(rng.choice(["none", "by-pid", "first-slow", "random"])),
+        "init_sigma": init_sigma,
     }
 
 
@@ -213,6 +222,14 @@ def child_main(path):
     if case["preseed"] is not None:
         np.random.seed(case["preseed"])
     out = {"samples": [], "mode": case["mode"]}
+    try:
+        _child_sample(case, P, pset, instr, out, at)
+    except Exception as e:
+        out["failed"] = "%s: %s" % (type(e).__name__, str(e)[:200])
+    print("SAMPLES=" + json.dumps(out))
+
+
+def _child_sample(case, P, pset, instr, out, at):
     if case["mode"] == "pool":
         res = P.run_sampled_sims(P.parsets[0], progset=pset, progset_instructions=instr, n_samples=case["n_samples"], parallel=True, num_workers=case["workers"])
         for rl in res:
@@ -223,7 +240,6 @@ def child_main(path):
         ens.run_sims(P, P.parsets[0], progset=pset, progset_instructions=instr, n_samples=case["n_samples"], parallel=True)
         for s in ens.samples:
             out["samples"].append({"fp": getattr(s, "_av_fp", None), "pid": getattr(s, "_av_pid", None)})
-    print("SAMPLES=" + json.dumps(out))
 
 
 def run_case(case):
@@ -313,8 +329,37 @@ def run_case(case):
                 R.count("parallel_child_failed")
                 tail = (p.stderr or "")[-400:]
                 return {"records": R.records(), "stats": R.stats, "nontrivial": False, "inconclusive": "parallel child produced no result: " + tail}
-            samples = json.loads(line[0][len("SAMPLES=") :])["samples"]
+            payload = json.loads(line[0][len("SAMPLES=") :])
+            if payload.get("failed"):
+                R.count("parallel_call_raised[%s]" % payload["failed"].split(":")[0])
+                if "Failed simulation after" in payload["failed"]:
+                    # the parallel call gave up redrawing.  Legitimate only if draws that cannot be initialised are so frequent
+                    # that 50 independent redraws can all fail; measured on serial draws of the same model
+                    bad = ok_ = 0
+                    st = np.random.get_state()
+                    np.random.seed(12345)
+                    for _ in range(40):
+                        try:
+                            P.run_sim(parset.sample(), progset=pset.sample() if pset is not None else None, progset_instructions=instr)
+                            ok_ += 1
+                        except Exception as e:
+                            if type(e).__name__ == "BadInitialization":
+                                bad += 1
+                            else:
+                                raise
+                    np.random.set_state(st)
+                    R.count("retry_exhaustion_judged")
+                    if bad / 40.0 <= 0.7:
+                        R.bad("redraw-after-refused-initialisation", "C17:parallel-sampling-exhausts-retries[%s]" % case["mode"], {"error": payload["failed"], "fraction_of_serial_draws_refused": bad / 40.0, "n_samples": case["n_samples"], "workers": case["workers"]})
+                    else:
+                        R.count("retry_exhaustion_plausible")
+                    return {"records": R.records(), "stats": R.stats, "nontrivial": False}
+                R.inc("independent-draws")
+                return {"records": R.records(), "stats": R.stats, "nontrivial": False, "inconclusive": "parallel call raised: " + payload["failed"]}
+            samples = payload["samples"]
             R.count("parallel_calls_completed")
+            if case.get("init_sigma"):
+                R.ok("redraw-after-refused-initialisation")
         except subprocess.TimeoutExpired:
             R.inc("independent-draws")
             R.count("parallel_child_timeout")
